@@ -630,6 +630,19 @@ fn parse_constant_value(
 ) -> DiagnosticResult<WithEmbeddedLocation<GraphQLConstantValue>> {
     from_control_flow(|| {
         to_control_flow(|| {
+            // Check that the literal is representable before consuming the token. Otherwise,
+            // the literal would be skipped and the next token parsed as the value.
+            let peeked = tokens.peek();
+            if peeked.item == TokenKind::IntegerLiteral {
+                let raw_int_value = tokens.source(peeked.location.span);
+                if raw_int_value.parse::<i64>().is_err() {
+                    return Diagnostic::new(
+                        format!("Invalid integer value. Received {raw_int_value}"),
+                        peeked.location.to::<Location>().wrap_some(),
+                    )
+                    .wrap_err();
+                }
+            }
             tokens
                 .parse_source_of_kind(TokenKind::IntegerLiteral)
                 .and_then(|int_literal_string| {
